@@ -271,8 +271,16 @@ def _chain(rep, func, steps, rest):
         # tal:content wraps the children as its default
         cn = [c for c in _nodes(content, "Condition")
               if isinstance(c.args[0], A.NodeV) and c.args[0].kind == "BinOp"]
-        okc = any(len(c.args) >= 3 and isinstance(c.args[1], A.NodeV) and
-                  c.args[1].kind == "Sequence" and
+        def kept(v):
+            # the children, or (i18n:translate on the element) the children
+            # inside a Translate node
+            if isinstance(v, A.Alt):
+                return kept(v.a) and kept(v.b)
+            if isinstance(v, A.NodeV) and v.kind == "Translate" and \
+                    len(v.args) >= 2:
+                return kept(v.args[1])
+            return isinstance(v, A.NodeV) and v.kind == "Sequence"
+        okc = any(len(c.args) >= 3 and kept(c.args[1]) and
                   isinstance(c.args[2], A.NodeV) and
                   c.args[2].kind == "Content" for c in cn)
         rep.check(okc, "R01.2", site, "tal:content: 'default' keeps the "
